@@ -23,6 +23,58 @@ theorem C07_reject_unknown_name (m : Summary) (h1 : m.ownMems = 1) (i : Imp) (hi
     rw [List.any_eq_true]; exact ⟨i, hi, by simp [hm, hn]⟩
   simp [apply, h1, hany]
 
+/-- facts about the regenerated tables: a first column entry is a public API name; a second column
+    entry is empty or a provider export; what is tolerated beyond the table is a provider export
+    or the memory -/
+theorem table_orig_public : ∀ p ∈ trampolineImportPairs, p.1 ∈ abiWat.map (·.1) := by decide +kernel
+theorem table_new_exported : ∀ p ∈ trampolineImportPairs, p.2.isEmpty = true ∨ p.2 ∈ providerExports.map (·.1) := by
+  decide +kernel
+theorem table_allow_exported : ∀ n ∈ trampolineAllowList, n ∈ providerExports.map (·.1) ∨ n = memoryName := by
+  decide +kernel
+
+/-- **"known" means "part of the ABI"**: a name the first scan tolerates in the API namespace is a
+    public API function (as the WAT lists them), a name the provider exports, or `memory` -/
+theorem C07_known_names_are_the_abi (n : List Nat) (h : knownName n = true) :
+    n ∈ abiWat.map (·.1) ∨ n ∈ providerExports.map (·.1) ∨ n = memoryName := by
+  unfold knownName at h
+  rw [Bool.or_eq_true] at h
+  rcases h with h | h
+  · rw [List.any_eq_true] at h
+    obtain ⟨p, hp, hpn⟩ := h
+    rw [Bool.or_eq_true] at hpn
+    rcases hpn with hpn | hpn
+    · have : p.1 = n := by simpa using hpn
+      exact Or.inl (this ▸ table_orig_public p hp)
+    · rw [Bool.and_eq_true] at hpn
+      have h2 : p.2 = n := by simpa using hpn.2
+      rcases table_new_exported p hp with he | he
+      · rw [he] at hpn; simp at hpn
+      · exact Or.inr (Or.inl (h2 ▸ he))
+  · have : n ∈ trampolineAllowList := by simpa using h
+    rcases table_allow_exported n this with h1 | h1
+    · exact Or.inr (Or.inl h1)
+    · exact Or.inr (Or.inr h1)
+
+/-- hence: a module with a memory of its own that imports, from the API namespace, a name that is
+    neither a public API function nor exported by the provider nor `memory` — the empty name
+    included (F12) — is rejected, whatever else it contains -/
+theorem C07_reject_name_outside_abi (m : Summary) (h1 : m.ownMems = 1) (i : Imp) (hi : i ∈ m.imports)
+    (hm : i.module = provider) (h_api : i.name ∉ abiWat.map (·.1))
+    (h_exp : i.name ∉ providerExports.map (·.1)) (h_mem : i.name ≠ memoryName) : apply m = .reject 1 := by
+  apply C07_reject_unknown_name m h1 i hi hm
+  cases hk : knownName i.name with
+  | false => rfl
+  | true =>
+    rcases C07_known_names_are_the_abi _ hk with h | h | h
+    · exact absurd h h_api
+    · exact absurd h h_exp
+    · exact absurd h h_mem
+
+/-- non-vacuity: the empty name is outside the ABI, and a module importing it is refused -/
+example : (match apply { ownMems := 1, imports := [{ module := provider, name := [], kind := 0 }] } with
+    | .reject 1 => true
+    | _ => false) = true := by decide +kernel
+
 /-- an import from an API module of another version is rejected -/
 theorem C07_reject_other_version (m : Summary) (h1 : m.ownMems = 1) (i : Imp) (hi : i ∈ m.imports)
     (hp : versionPrefix.isPrefixOf i.module = true) (hne : i.module ≠ provider) :
@@ -174,7 +226,7 @@ theorem table_adds_ne_orig : ∀ p ∈ trampolineImportPairs, ∀ p' ∈ trampol
   decide +kernel
 theorem table_alloc : knownName allocName = true ∧ ∀ p ∈ trampolineImportPairs, allocName ≠ p.1 := by decide +kernel
 theorem table_memory : knownName memoryName = true ∧ ∀ p ∈ trampolineImportPairs, memoryName ≠ p.1 := by decide +kernel
-theorem table_new_known : ∀ p ∈ trampolineImportPairs, knownName p.2 = true := by decide +kernel
+theorem table_new_known : ∀ p ∈ trampolineImportPairs, expectedSig? p.1 = none → knownName p.2 = true := by decide +kernel
 
 /-- **idempotence of the rewrite decision**: the import section the tool produces is one the
     tool accepts and leaves exactly as it is -/
@@ -220,11 +272,11 @@ theorem C07_idempotent (m s : Summary) (h : apply m = .rewrite s) : apply s = .r
               rintro ⟨j, hj, hbad⟩
               simp only [Bool.and_eq_true, beq_iff_eq, Bool.not_eq_true'] at hbad
               rcases hcases j hj with hji | ⟨_, hn⟩ | ⟨_, hn⟩
-              · rcases hnames j hji with hjm | ⟨_, p, hp, hn⟩
+              · rcases hnames j hji with hjm | ⟨_, p, hp, hnone, hn⟩
                 · apply hc1
                   rw [List.any_eq_true]
                   exact ⟨j, hjm, by simp [hbad.1, hbad.2]⟩
-                · rw [hn, table_new_known p hp] at hbad; cases hbad.2
+                · rw [hn, table_new_known p hp hnone] at hbad; cases hbad.2
               · rcases hn with ⟨p, hp, hx⟩ | hx
                 · rw [table_adds_known p hp _ hx] at hbad; cases hbad.2
                 · rw [hx, table_alloc.1] at hbad; cases hbad.2
